@@ -290,6 +290,10 @@ Inductive tunit :=
 | TLit (c : N)                              (* TextUnit::Literal *)
 | TBs (c : N)                               (* TextUnit::Backslashed *)
 | TParam (p : param) (m : modifier)         (* RawParam / BracedParam *)
+| TSubst (raw : str)                        (* CommandSubst / Backquote; raw = what the
+                                               command wrote to its standard output (supplied) *)
+| TArith (t : text) (v : str)               (* Arith; v = decimal value of the expression
+                                               the content expands to (supplied) *)
 with text := TNil | TCons (u : tunit) (t : text)
 with modifier :=
 | MNone
@@ -300,6 +304,9 @@ with wunit :=
 | WUnq (u : tunit)                          (* WordUnit::Unquoted *)
 | WSq (s : str)                             (* WordUnit::SingleQuote *)
 | WDq (t : text)                            (* WordUnit::DoubleQuote *)
+| WDsq (s : str)                            (* DollarSingleQuote; s = the unquoted string *)
+| WTilde (home : str) (followed_by_slash : bool)
+                                            (* Tilde; home = result of tilde::expand_body (supplied) *)
 with word := WNil | WCons (u : wunit) (w : word).
 
 (* ---- environment ------------------------------------------------------------ *)
@@ -517,6 +524,33 @@ Definition double_quote (p : phrase) : phrase :=
   | Full fs => Full (map quote_field fs)
   end.
 
+(* fn dollar_single_quote *)
+Definition dollar_single_quote (s : str) : phrase :=
+  Field (AC 36 Literal false true :: SINGLE_QUOTE
+         :: map (fun c => AC c Literal true false) s ++ [SINGLE_QUOTE]).
+
+(* tilde::finish: characters of hard-expansion origin; one trailing slash is
+   dropped when a slash follows; an empty result is a dummy quote *)
+Definition strip_suffix_slash (s : str) : str :=
+  match rev s with
+  | 47%N :: r => rev r
+  | _ => s
+  end.
+Definition tilde_finish (home : str) (followed_by_slash : bool) : field :=
+  let chars := if followed_by_slash then strip_suffix_slash home else home in
+  match chars with
+  | [] => [AC 34 HardExpansion false true]
+  | _ => map (fun c => AC c HardExpansion false false) chars
+  end.
+
+(* command_subst.rs: result.trim_end_matches('\n') *)
+Fixpoint drop_newlines (s : str) : str :=
+  match s with
+  | 10%N :: r => drop_newlines r
+  | _ => s
+  end.
+Definition trim_end_newlines (s : str) : str := rev (drop_newlines (rev s)).
+
 (* ---- results -------------------------------------------------------------------------------- *)
 
 Inductive error :=
@@ -615,6 +649,16 @@ Fixpoint expand_tunit (ws : bool) (u : tunit) (e : env) {struct u} : res phrase 
               end
           end
       end
+  | TSubst raw =>
+      (* command_subst::expand_common: the output without its trailing newlines *)
+      Ok (Field (to_field (trim_end_newlines raw))) e
+  | TArith t v =>
+      (* arith::expand: expand_text on the content (fresh splitting context),
+         then the value as characters of soft-expansion origin *)
+      match expand_slice (expand_text_go true) text_is_empty t e with
+      | Ok _ e' => Ok (Field (to_field v)) e'
+      | Err k => Err k
+      end
   end
 with expand_text_go (ws : bool) (t : text) (acc : phrase) (e : env) {struct t} : res phrase :=
   match t with
@@ -634,6 +678,8 @@ with expand_wunit (ws : bool) (u : wunit) (e : env) {struct u} : res phrase :=
       | Ok ph e' => Ok (double_quote ph) e'
       | Err k => Err k
       end
+  | WDsq s => Ok (dollar_single_quote s) e
+  | WTilde home slash => Ok (Field (tilde_finish home slash)) e
   end
 with expand_word_go (ws : bool) (w : word) (acc : phrase) (e : env) {struct w} : res phrase :=
   match w with
@@ -672,6 +718,14 @@ Section Multi.
 
   (* expansion.rs expand_word (ExpansionMode::Single: assignment values, case
      words, ...): initial expansion, ifs_join, quote removal; no splitting *)
+  (* expansion.rs expand_text (here-document bodies, arithmetic content):
+     initial expansion of a text, ifs_join, quote removal *)
+  Definition expand_text_single (t : text) (e : env) : res str :=
+    match expand_text true t e with
+    | Ok ph e' => Ok (remove_quotes_and_strip (ifs_join ph (ifs_var e'))) e'
+    | Err k => Err k
+    end.
+
   Definition expand_word_single (w : word) (e : env) : res str :=
     match expand_word true w e with
     | Ok ph e' => Ok (remove_quotes_and_strip (ifs_join ph (ifs_var e'))) e'
